@@ -23,7 +23,8 @@ STATUS = {"OPEN_TODO": "o", "CLOSED_TODO": "x", "CANCELED_TODO": "~", "BLOCKED_T
 
 BODY_WORDS = ["foo", "Foo", "FOO", "bar", "a_b", "aXb", "100%", "50", "path\\to", "it's", "e.g.", "snake_case", "done", "a-b", "x9",
               "Bar", "(p)", "#tag"]
-TAGS = {"#": ["home", "work", "a1"], "@": ["home", "work"], "%": ["bob", "x9"], "+": ["proj_x", "projXx", "foo"]}
+TAGS = {"#": ["home", "work", "a1", "bob"], "@": ["home", "work", "bob"], "%": ["bob", "x9", "home", "work"],
+        "+": ["proj_x", "projXx", "foo", "home", "work", "bob"]}   # the same names under every tag kind
 PROPS = [("due", ["2024-05-01", "2024-06-01", "2024-06-15", "2023-12-31", "soon", "2024-13-01"]),
          ("k", ["7", "42", "007", "val", "x9", "Some_Value", "-3", "12abc"]),
          ("ab_c", ["1200", "P3", "file", "val"]), ("foo", ["2031-12-31", "240101#0A"])]
@@ -220,7 +221,7 @@ def triggers(a):
 EXTRA_ATOMS = ['c"a_b"', '"a_b"', "'100%'", '"path\\to"', "f=foo_bar", "f=foo*", "f=*bar", "f=sub/*", "![[target]]", "[[target]]", "[[foo_bar]]",
                "![[sub/bar]]", "[[sub/bar]]", "due:<2024-06-01", "!due:<2024-06-01", "due:0d", "due:>=-30d", "k:>7", "k:007", "!k:42", "k:<=42",
                "ab_c:P3", "ab_c:>1200", "foo:2031-12-31", "!due:*", "due:*", "c'Foo'", "'foo'", "'FOO'", '!"foo"', "^231201:240201", "$240101:240131",
-               "P3-1", "@home", "!@home", "#a1", "+proj_x", "%x9", "k:val", "k:>val", "!k:>=x9"]
+               "P3-1", "@home", "!@home", "!#work", "!#home", "!%bob", "!@work", "!+home", "#work", "%home", "#a1", "+proj_x", "%x9", "k:val", "k:>val", "!k:>=x9"]
 
 
 def gen_query(rng, today):
